@@ -84,3 +84,76 @@ Theorem C02_external_checksum_refuted :
               /\ wf_tensor t = false.
 Proof. exists checksum_witness. eexists. split; [reflexivity|]. split; reflexivity. Qed.
 Print Assumptions C02_external_checksum_refuted.
+
+(* Stage 5.  Nodes inside a scope stack: inputs are resolved through the scoped name tables (innermost
+   first) to values whose name is the key (invariant scope_ok), optional inputs "" stay empty, trailing
+   unnamed outputs are trimmed, the alias domain "ai.onnx" becomes "", attributes keep order, doc strings
+   and values, metadata is kept, device configurations are kept iff the IR version passed to the
+   serializer allows them; the name table is not changed by a node whose inputs are all resolvable. *)
+Theorem C02_node_scoping :
+  forall (dg : list scope -> GraphP -> res IGraph) (sg : IGraph -> res GraphP) (wfg : GraphP -> bool)
+         (outer : list scope) (cur : scope) vis qs,
+  (forall g, wfg g = true ->
+     exists ig, dg (cur :: outer) g = Ok ig /\ exists g', sg ig = Ok g' /\ norm_graph g' = norm_graph g) ->
+  wfg empty_graph = true ->
+  Forall scope_ok (cur :: outer) ->
+  forall allow_dev irv visible (n : NodeP GraphP),
+  irv_allows allow_dev irv ->
+  (forall k, In k visible -> visible_in (cur :: outer) k) ->
+  Forall (fun o => o = [] \/ mem o cur = true) (n_outputs n) ->
+  wf_node allow_dev (fun _ => wfg) visible n = true ->
+  exists inode, deser_node dg empty_graph outer vis qs cur n = Ok (inode, cur)
+                /\ in_outputs inode = n_outputs n
+                /\ exists n', ser_node sg irv inode = Ok n'
+                              /\ norm_node norm_graph empty_graph n' = norm_node norm_graph empty_graph n.
+Proof.
+  intros dg sg wfg outer cur vis qs Hg He Hs allow_dev irv visible n.
+  exact (node_roundtrip dg sg wfg outer cur vis qs Hg He Hs allow_dev irv visible n).
+Qed.
+Print Assumptions C02_node_scoping.
+
+(* What is proved of C02_roundtrip: every message kind below the graph level round-trips for ALL
+   well-formed inputs (tensors, value-info with nested types/shapes/denotations, and — relative to
+   the nested graphs — attributes of every kind and nodes in a scope stack).
+   MISSING stages: graph/scoping (the initializer, declare-outputs, node and output loops of
+   _deserialize_graph against the emission rules of serialize_graph_into, incl. value-info for
+   initializers and the quantization annotations), function, model.  For these the statement is
+   validated per generated proto inside Coq (case files: wf p -> norm (roundtrip p) = norm p) and by the
+   correspondence with the implementation, not proved. *)
+Theorem C02_roundtrip_partial :
+  (forall t : TensorP, wf_tensor t = true ->
+     exists q, roundtrip_tensor t = Ok q /\ norm_tensor q = norm_tensor t)
+  /\ (forall vi : VInfoP, wf_vinfo vi = true ->
+     exists q, roundtrip_vinfo vi = Ok q /\ norm_vinfo q = norm_vinfo vi)
+  /\ (forall t : TypeP, wf_type t = true ->
+     exists q, roundtrip_type t = Ok q /\ norm_type q = norm_type t).
+Proof.
+  split; [exact C02_tensor_fields|]. split; [exact C02_value_info|].
+  intros t H. destruct (type_roundtrip t H) as (ty & sh & H1 & H2 & H3).
+  exists (ser_type_shape ty sh). unfold roundtrip_type. rewrite H2, H1. split; [reflexivity | exact H3].
+Qed.
+Print Assumptions C02_roundtrip_partial.
+
+(* wf is satisfiable by a non-trivial model: a graph with an initializer, a node with a subgraph that
+   captures an outer value, a trailing empty output and metadata (evaluated, and its round trip checked). *)
+Definition example_model : ModelP :=
+  mkModelP (Some 10) [([], 21)] (Some [112%N]) None None None None
+    (mkGraphP (Some [103%N]) None
+       [mkVInfoP (Some [120%N]) (TTensor (Some 1) (Some [mkDim (DParam [78%N]) None]) None) None []]
+       [mkTensorP [1] (Some 1) (Some [119%N]) None None (Some [0%N;0%N;128%N;63%N]) [] [] [] [([107%N], [118%N])]]
+       [mkNodeP [[120%N]; [119%N]] [[121%N]; []] (Some [110%N]) (Some [73%N; 102%N]) (Some ai_onnx) None None
+          [mkAttrP (Some [98%N]) None (Some [100%N]) (Some AttributeType_GRAPH)
+             (AG (mkGraphP None None [] []
+                    [mkNodeP [[120%N]] [[122%N]] None (Some [82%N]) None None None [] [] []]
+                    [mkVInfoP (Some [122%N]) (TUnset None) None []] [] [] []))]
+          [([122%N], [49%N]); ([97%N], [50%N])] []]
+       [mkVInfoP (Some [121%N]) (TSeq (Some (TTensor (Some 1) None None)) None) None []]
+       [] [] [])
+    [] [] [].
+Example C02_wf_satisfiable :
+  wf_model example_model = true
+  /\ match roundtrip_model example_model with
+     | Ok q => model_eqb (norm_model q) (norm_model example_model)
+     | Raise _ => false
+     end = true.
+Proof. split; vm_compute; reflexivity. Qed.
